@@ -248,6 +248,14 @@ def _errors(case):
                     expect(("MixedArrayShapes",), res, "shapes %r" % (shp,), tag)
                     sample = tag
     if ar == "n":
+        # three inputs of three DIFFERENT shapes (every ordering of a few triples)
+        for trio in (((2,), (3,), (4,)), ((2, 2), (4,), (1, 4)), ((), (1,), (1, 1))):
+            for shp in itertools.permutations(trio):
+                arrays = [D.mk_array([F(1)] * int(numpy.prod(s_)), shape=s_) for s_ in shp]
+                params = {"Weights": [1, 1, 1]} if op.startswith("Weighted") else {}
+                res = D.execute(op, arrays, params)
+                evals += 1
+                expect(("MixedArrayShapes",), res, "shapes %r" % (shp,), {"op": op, "shapes": [list(s_) for s_ in shp]})
         # empty input list
         params = {"Weights": []} if op.startswith("Weighted") else {}
         res = D.execute(op, [], params)
